@@ -58,7 +58,7 @@ def cases(draw):
     log = kind in ("log8", "log16")
     U = draw(vs.universe(2, 6, 20))
     key = st.sampled_from(U)
-    val = st.one_of(st.sampled_from([0, 1, 1, 2, 3, 17]), st.integers(0, 60)) if log else st.one_of(st.sampled_from([0, 1, 2, 3, 100, 2**31, CEIL]), st.integers(0, 60))
+    val = st.one_of(st.sampled_from([0, 1, 1, 2, 3, 17]), st.integers(0, 60)) if log else st.one_of(st.sampled_from([0, 1, 2, 3, 100, 2**31, CEIL]), st.integers(0, 60), st.sampled_from([255, 256, 257, 65535, 65536, 65537, 2**24, 128, 32768]))
 
     def step():
         k = draw(st.sampled_from(["add", "add", "update_list", "update_dict", "add_ngram"]))
